@@ -6,6 +6,7 @@
       selector.go    newRandomRegionSelector, randomSelector.findSuitableNodeHost
       filter.go      liveFilter, basicFilter, regionFilter, combinedFilter (newDrummerRegionFilter)
       validation.go  validateNodeHostRequest
+      server.go      validateRegions (verdict only; it must leave the message untouched)
 
     Conventions
     - strings (addresses, region names, application names) are [N], the empty string is 0
@@ -32,6 +33,9 @@
     - uint64 arithmetic wraps ([usub64]), [int(x)] of a uint64 is two's complement ([to_int]).
       Go's [len] is an [int]: slices have fewer than 2^63 elements.  This is the hypothesis
       [go_sized] of the theorems; list lengths are otherwise unbounded naturals.
+    - [nodeHostSpec.PersistentLog] is the field [h_plog] of [hostspec]; launch planning does not read
+      it (a launch request is never a restore request), so [launch] ignores it and the theorems hold
+      for every value of it;
     - not modelled: the [Config] field of the requests (a copy of the scheduler's config, the same
       for every request), logging.
 
@@ -258,6 +262,16 @@ Definition validate_request (q : request) : bool :=
           (match q_members q with [] => false | m :: _ => nonzero m end) && nonzero (q_shard q)
       | RCreate => nonzero (q_inst q) && nonzero (q_app q) && nonzero (nlen (q_rids q))
       end).
+
+(** * server.go: validateRegions, the test SetRegions applies before it persists the specification;
+    [true] = accepted.  (The specification the scheduler later reads is the accepted message, unchanged.) *)
+Definition validate_regions (regs : option regions) : bool :=
+  match regs with
+  | None => false
+  | Some r =>
+      negb (nlen (rg_region r) =? 0) && (nlen (rg_region r) =? nlen (rg_count r)) &&
+      forallb nonzero (rg_region r) && negb (has_dup [] (rg_region r))
+  end.
 
 (** * Vocabulary of the specification (used by props/C08.v) *)
 
